@@ -92,14 +92,17 @@ def run(ctx):
                         "placeDetailed(params), setSolution / setCellX / setCellY (60 % on a FIXED cell when there is one), setCellIsFixed / "
                         "setCellIsObstruction (set, clear, toggle), setRows (edit a row's x range/orientation, drop/add a row), setCellWidth/Height/"
                         "Orientation, addNet, copy assignment, with computeRows/hpwl/report queries between the steps; every legalize/placeDetailed "
-                        "call is judged on the public state right before it (legalb on a normal return when that state is in the domain std_design, "
+                        "call is judged on the public state right before it (legalb on a normal return when that state is in the python reading of std_design -- narrower than Coq's: no inverted rows, no UNKNOWN/INVALID row orientation; other states are not judged --, "
                         "a failure leaves the placement, no failure when trivially feasible) and repeated on a circuit built from scratch with "
                         "that state (same outcome, same placement)",
                 "distribution": dist,
                 "samples": [run.lines[0], run.lines[len(run.lines) // 2]],
                 "model_vs_impl_differences": len(mism) + len(seqs["differ"]), "impl_outputs_violating_statement": len(ofail) + seq_bad})
     return ctx.finish(LEVEL, cov, ["model tied to the code by exact comparison on the cases of this run",
-                                   "legality of the model's result for all inputs is carried by the checked model (legalize_checked) and validated per case; see Properties_C01.v for what is proved unconditionally"])
+                                   "legality of the raw model's result is PROVED on std_design for every cell order (c01_legalize_circuit_legal / c01_legalize_real_legal); outside std_design it is only validated per case by the proved checker legalb",
+                                   "'a failure leaves the placement' holds by construction of the model (circuit_after) and is validated per case; exceptions other than NoRow/NotAllPlaced are not modelled, every such exception is reported as 'unexpected exception'",
+                                   "the model computes in unbounded Z; generated coordinates stay within about 2^16, no magnitude hypothesis is proved for C01",
+                                   "for the 'legalize twice' cases only the first run is compared and judged here"])
 
 
 def replay(ctx, path):
